@@ -36,7 +36,9 @@ RULE = (
     "every stream read, every get_data, every package import, every "
     "readline/read(n) call of every resource including the call that returns "
     "EOF, every conversion / section-datatype / key-type callback call "
-    "(ValueError and RuntimeError), and typed text faults at every position. "
+    "(ValueError and RuntimeError), and typed text faults at every position; "
+    "for a third of the points a second faulty load (another point of the "
+    "same scenario) follows on the same loader before the fault-free rerun. "
     "A case is non-trivial when the fault fired inside the in-flight load; "
     "distinct = distinct sha256 of the seam-event trace of that load.")
 ASSUMPTIONS = [
@@ -353,9 +355,10 @@ def execute(plan):
             out["waste"] += 1
             return out
 
-        def violation(clause, detail, pt, label):
+        def violation(clause, detail, pt, label, pt2=None):
             focused = dict(plan)
             focused["only"] = pt
+            focused["only2"] = pt2
             out["violations"].append({
                 "sig": "C19|%s|%s" % (clause, plan["kind"]),
                 "key": {"clause": clause, "scenario": plan["kind"],
@@ -373,13 +376,36 @@ def execute(plan):
             pts = [plan["only"]]
         else:
             pts = failure_points(plan, recon)
-        for pt in pts:
+        for ipt, pt in enumerate(pts):
             if not pt.get("faults") and len(pt) == 1 and "faults" in pt:
                 continue
             store, faults, label = apply_point(plan, store0, pt)
             ctx.fresh_loader()
             t0 = len(w.trace)
             o, problems, rec = ctx.run(store, faults, "faulty")
+            # fault SEQUENCES: for a third of the failure points a second
+            # load with another failure point follows on the same loader /
+            # schema object before the fault-free rerun (clean-up that works
+            # once must work twice)
+            pt2 = None
+            if plan.get("only") is not None:
+                pt2 = plan.get("only2")
+            elif len(pts) > 1 and (ipt + plan.get("rot", 0)) % 3 == 0:
+                pt2 = pts[(ipt * 7 + plan.get("rot", 0) + 3) % len(pts)]
+            if pt2 is not None:
+                store2, faults2, label2 = apply_point(plan, store0, pt2)
+                o_b, problems_b, rec_b = ctx.run(store2, faults2, "faulty-2")
+                out["evaluations"] += 1
+                if rec_b["fired"] > 0 or (not faults2 and not same(o_b,
+                                                                   base)):
+                    out["probes"]["second-fault-in-sequence-fired"] = out[
+                        "probes"].get("second-fault-in-sequence-fired",
+                                      0) + 1
+                for clause, detail in problems_b:
+                    violation(clause, "%s (second faulty load of a "
+                              "sequence, %s after %s; ended with %s)"
+                              % (detail, label2, label, ops.brief(o_b)),
+                              pt, label, pt2)
             out["evaluations"] += 1
             fired = rec["fired"] > 0 or (not faults and not same(o, base))
             if fired:
@@ -398,7 +424,7 @@ def execute(plan):
                                       0) + 1
             for clause, detail in problems:
                 violation(clause, "%s (load ended with %s)"
-                          % (detail, ops.brief(o)), pt, label)
+                          % (detail, ops.brief(o)), pt, label, pt2)
             # (4) fault-free rerun
             o2, problems2, _rec2 = ctx.run(store0, [], "rerun")
             out["evaluations"] += 1
@@ -406,9 +432,9 @@ def execute(plan):
                 violation("rerun-differs",
                           "fault-free rerun after the failed load gives %s, "
                           "baseline was %s" % (ops.brief(o2), ops.brief(base)),
-                          pt, label)
+                          pt, label, pt2)
             for clause, detail in problems2:
-                violation(clause, detail + " (in the rerun)", pt, label)
+                violation(clause, detail + " (in the rerun)", pt, label, pt2)
             if plan.get("reuse_loader") and plan["kind"] == "config":
                 o3, problems3, _rec3 = ctx.run(store0, [], "wrapper")
                 out["evaluations"] += 1
@@ -417,10 +443,11 @@ def execute(plan):
                               "after the failed load the same loader gives "
                               "%s for a resource that merely %%include-s the "
                               "top resource; baseline was %s"
-                              % (ops.brief(o3), ops.brief(base)), pt, label)
+                              % (ops.brief(o3), ops.brief(base)), pt, label,
+                              pt2)
                 for clause, detail in problems3:
                     violation(clause, detail + " (in the wrapper load)", pt,
-                              label)
+                              label, pt2)
             out["log"].append("%s -> %s ; rerun %s" % (
                 label, ops.brief(o), ops.brief(o2)))
     return out
@@ -428,6 +455,10 @@ def execute(plan):
 
 def shrink(plan):
     pt = plan.get("only")
+    if pt is not None and plan.get("only2") is not None:
+        new = dict(plan)
+        new["only2"] = None
+        yield new
     if pt is None or plan["kind"] != "config" or "inj" in pt:
         return
     # drop balanced line ranges from resources (fault ordinals may shift: the
